@@ -531,6 +531,7 @@ TRANSPARENT_SUFFIX = (
     "::to_vec",
     "::copied",
     "::cloned",
+    "::flatten",
 )
 TRANSPARENT_EXACT = (
     "<T as core::convert::From<T>>::from",
